@@ -17,9 +17,10 @@ RULE = ("enumeration: (a) every assignment of {absent, true, false, raise} "
         "x ignore flag to before_start, before_spawn, after_spawn, "
         "after_start (4^4 x 2^4, a superset of the stated 3^4 x 2^4) x "
         "worker in {obedient, stubborn} x numprocesses in {1, 2} x request "
-        "in {start, restart, daemon start}; (b) before_stop/after_stop x "
+        "in {start, restart, daemon start}, plus each start-phase hook answering "
+        "None / 0 instead of False; (b) before_stop/after_stop x "
         "outcomes x ignore x {stop, restart, rm} x worker kind; (c) "
-        "before_signal/after_signal x outcomes x ignore x signal in {TERM, "
+        "before_signal/after_signal x outcomes (None and 0 included in b, c) x ignore x signal in {TERM, "
         "HUP, USR1, KILL} x {signal, kill, stop} x worker kind.  sampled: "
         "all eight hooks at once with random outcomes and a random request. "
         "Non-trivial = at least one hook returns false or raises; distinct "
@@ -34,6 +35,10 @@ ASSUMPTIONS = [
 ]
 START_HOOKS = ('before_start', 'before_spawn', 'after_spawn', 'after_start')
 OUTCOMES = ('absent', 'true', 'false', 'raise')
+# "If you don't return True, circus will kill the process": any falsy answer
+# is a false one (None is what a hook without a return statement gives)
+FALSY = ('false', 'none', 'zero')
+OUTCOMES_WIDE = OUTCOMES + ('none', 'zero')
 SIGS = {"TERM": 15, "HUP": 1, "USR1": 10, "KILL": 9}
 GT = 0.3
 
@@ -45,7 +50,7 @@ def eff(hooks, name, default_ignored=False):
     out, ign = spec
     if out == 'true':
         return True
-    if out == 'false':
+    if out in FALSY:
         return False
     return bool(ign) or default_ignored
 
@@ -261,7 +266,7 @@ def execute(case):
                             s, sorted(old_pids), got_s)))
     finally:
         h.close()
-    nontrivial = any(v[0] in ('false', 'raise') for v in hooks.values())
+    nontrivial = any(v[0] in FALSY + ('raise',) for v in hooks.values())
     seen = set()
     out = []
     for v in viols:
@@ -296,8 +301,24 @@ def start_cases():
                                "request": reqname}
 
 
+def start_cases_falsy():
+    """One start-phase hook answering None / 0 (the others absent or true)."""
+    for i, hn in enumerate(START_HOOKS):
+        for out in ('none', 'zero'):
+            for others in ('absent', 'true'):
+                hooks = dict((h2, [others, False]) for h2 in START_HOOKS
+                             if others != 'absent')
+                hooks[hn] = [out, False]
+                for worker in ('obedient', 'stubborn'):
+                    for np_ in (1, 2):
+                        for reqname in ('start', 'restart', 'daemon-start'):
+                            yield {"family": "start", "hooks": hooks,
+                                   "worker": worker, "np": np_,
+                                   "request": reqname}
+
+
 def stop_cases():
-    for o1, o2 in itertools.product(OUTCOMES, repeat=2):
+    for o1, o2 in itertools.product(OUTCOMES_WIDE, repeat=2):
         for f1, f2 in itertools.product((False, True), repeat=2):
             if (o1 == 'absent' and f1) or (o2 == 'absent' and f2):
                 continue
@@ -312,7 +333,7 @@ def stop_cases():
 
 
 def signal_cases():
-    for o1, o2 in itertools.product(OUTCOMES, repeat=2):
+    for o1, o2 in itertools.product(OUTCOMES_WIDE, repeat=2):
         for f1, f2 in itertools.product((False, True), repeat=2):
             if (o1 == 'absent' and f1) or (o2 == 'absent' and f2):
                 continue
@@ -329,13 +350,15 @@ def signal_cases():
 
 
 def _all_cases(tier):
-    return list(start_cases()) + list(stop_cases()) + list(signal_cases())
+    return list(start_cases()) + list(start_cases_falsy()) + \
+        list(stop_cases()) + list(signal_cases())
 
 
 def _strategy():
     from hypothesis import strategies as st
     from vfw.history import HOOK_NAMES
-    spec = st.tuples(st.sampled_from(OUTCOMES), st.booleans()).map(list)
+    spec = st.tuples(st.sampled_from(OUTCOMES + OUTCOMES_WIDE),
+                     st.booleans()).map(list)
     return st.fixed_dictionaries({
         "family": st.just("mixed"),
         "hooks": st.fixed_dictionaries(dict((hn, spec)
